@@ -172,6 +172,7 @@ def judge_slice(case, rec):
 def judge_strand(case, rec):
     sv, q = case["survey"], case["query"]
     part = lib.cube(zz9enc.encode(sv, q), case["transforms"]).partitions[0]
+    lib.warm(part, case.get("warmup"))
     orc = Oracle(sv, q)
     rec.event("shape=" + "x".join(case["shape"]))
     rspecs = lib.display_specs(part.row_order(), part.row_labels, orc.rows,
